@@ -649,6 +649,14 @@ C18_TEXTS = [
 ]
 
 
+C18_TEXTS += [
+    # a dimensionless table unit (%) stays attached while the dimensional units of the other operands cancel: its factor counts once
+    ("dimensionless-unit-kept-while-dimensions-cancel", 'eta float = 50 %\nr float = ("50 % * {?a} / 5 cm")\nrp float = ("50 % * {?a} / 5 cm") %\nrb float = ("{?a} / 5 cm * 50 %")\n'
+     'gain float = ("{?eta} * {?a} / 1 cm")\nlen float = ("1 m + 3 m * (50 % * {?a} / 5 cm) - 50 cm") m', False,
+     [("r", ("*", wa, 10)), ("rp", ("*", wa, 1000)), ("rb", ("*", wa, 10)), ("gain", ("*", wa, 50)), ("len", ("+", ("*", wa, 30), 0.5))], None),
+]
+
+
 @contract(DIPC + ".parse", ["C18"], name="DIP.parse[expressions]")
 def _(c):
     c.bound = f"{len(C18_TEXTS)} texts with numerical / logical expressions over referenced nodes; the values of the referenced nodes are symbolic"
